@@ -194,8 +194,8 @@ package rjson
 //@   ensures [C13,C08,C12] err == nil ==> val == litat(data, wsrun(data, 0), "true") && p == wsrun(data, 0) + ite(val, 4, 5)
 //
 //@ func unescapeStringContent(data, dst) (val, p, err)
-//@   ensures @alloc [C20] err == nil ==> ghost_alloc <= old(ghost_alloc) + 4*len(dst) + 16*len(data) + 1024
 //@   candidates @alloc cap(dst) >= cap(old(dst)); len(dst) <= len(old(dst)) + segStart; len(dst) <= len(old(dst)) + p
+//@   candidates @alloc cap(dst) >= len(old(dst)) + len(data); ghost_alloc <= 4*len(old(dst)) + 4*len(data) + 256
 //@   ensures @sim [C06] qis(Rq(data, len(data)), "InValue.Str@top") ==> err == nil && p == len(data)
 //@   input data
 //@   cuts st_case_*
@@ -213,6 +213,7 @@ package rjson
 //@ func appendRemainderOfString(data, dst) (val, p, err)
 //@   ensures @alloc [C20] err == nil ==> ghost_alloc <= old(ghost_alloc) + 4*len(dst) + 16*p + 1024
 //@   candidates @alloc cap(dst) >= cap(old(dst)); len(dst) <= len(old(dst)) + segStart; len(dst) <= len(old(dst)) + p
+//@   candidates @alloc cap(dst) >= len(old(dst)) + len(data); ghost_alloc <= 4*len(old(dst)) + 4*len(data) + 256
 //@   ensures @sim [C06] err == nil ==> p >= 1 && data[p-1] == '"' && qis(Rq(data, p-1), "InValue.Str@top") && Rdepth(data, p-1) == 0
 //@   ensures @sim [C06] err != nil ==> !accepts(data)
 //@   input data
